@@ -102,9 +102,9 @@ PROPS = {
         trusted_extra=["the real binary is run as a process; its CSV is parsed by the harness"],
     ),
     "C07": dict(
-        lean_modules=["AlphaG.Props.C07"],
+        lean_modules=["AlphaG.Props.C07", "AlphaG.Props.C07Stable"],
         required_theorems=["AlphaG.Chronobox." + t for t in [
-            "parse_sound_complete", "classify_spec", "parse_fields", "block_not_word",
+            "parse_remainder_stable", "parse_entries_monotone", "parse_sound_complete", "classify_spec", "parse_fields", "block_not_word",
             "isParse_unique", "parse_rest_suffix", "parse_resume", "feedAll_eq_whole",
             "parse_progress", "parse_total", "channelId_total", "channelId_ok_iff",
             "boardId_total", "boardId_ok_iff"]],
